@@ -70,6 +70,18 @@ fn gen_any(g: &VGen, r: &mut Rng, ty: VariantType) -> Variant {
             _ => Ref::new(),
         }),
         VariantType::Content if r.chance(1, 3) => Variant::Content(Content::from_referent(if r.chance(1, 4) { Ref::none() } else { Ref::new() })),
+        // the serde encodings CAN tell an empty cached face id from an absent one (the file formats cannot, so the
+        // shared generator never produces it): both must survive
+        VariantType::Font if r.chance(1, 5) => match g.gen(r, ty) {
+            Some(Variant::Font(mut f)) => {
+                f.cached_face_id = Some(String::new());
+                if r.chance(1, 3) {
+                    f.family = String::new();
+                }
+                Variant::Font(f)
+            }
+            other => other.expect("generator covers every variant type"),
+        },
         _ => g.gen(r, ty).expect("generator covers every variant type"),
     }
 }
